@@ -64,9 +64,9 @@ def run(repo, rep, tier):
     rep.decided.append("D4 Moslem <-> civil bijection, month/year lengths and the 16 July 622 epoch by exact execution on every Moslem year 1..2500 (R-CYCLE)")
     feast = feast_cycle(repo, rep, tier)
     recipes(repo, rep, feast)
-    moslem_carry(repo, rep)
+    cycle_ok = moslem_cycle(repo, rep, tier)
+    moslem_carry(repo, rep, cycle_ok)
     daycount(repo, rep)
-    moslem_cycle(repo, rep, tier)
     # moslem2gregorian names every civil date before 1583 through doy2date: its day-number table (shared with C16)
     rep.fn(MOD, "Epoch.doy2date")
     doy2date_table(repo, rep)
@@ -212,6 +212,8 @@ def moslem_cycle(repo, rep, tier):
         rep.ok("R-CYCLE", site, "%d Moslem dates executed exactly: existing civil date, agreement with the arithmetic calendar, round trip%s"
                % (n, " (every day of AH 1..2500)" if full else " (first two days and 29 Dhu al-Hijja of every year AH 1..2500, every day of AH 989-991)"), obligation=True)
         rep.floor("Moslem dates executed through both conversions", n, 7000)
+        return True
+    return False
 
 
 # --------------------------------------------------------------------------------------------------------------------------
@@ -303,7 +305,8 @@ def feast_cycle(repo, rep, tier):
                          "on a Sunday, Tuesday, Thursday or Saturday")
     if not _oracle_selftest():
         raise AnalysisError("the checker's own Computus / Hebrew-calendar definitions fail their published anchors")
-    prims = stdlib_prims(repo)
+    from ..rules import repo_prims
+    prims = repo_prims(repo, stdlib_prims(repo))
     YR = T.sym("NUM_YEAR")
     status = {}
     for q, rule in (("Epoch.easter", "R-COMPUTUS"), ("Epoch.jewish_pesach", "R-PESACH")):
@@ -612,7 +615,7 @@ def fr(a, b):
     return T.num(F_(a, b))
 
 
-def moslem_carry(repo, rep):
+def moslem_carry(repo, rep, cycle_ok=None):
     """moslem2gregorian: the day count J and the year X before the year-end carry equal Meeus' recipe, and the
     carry is the one of a Julian-calendar year (366 days iff X % 4 == 0): decided by substituting symbols
     for J and X and evaluating the remaining decision table exactly on every residue of X mod 4 and the
@@ -641,6 +644,10 @@ def moslem_carry(repo, rep):
     xs, js = calls[0][2], calls[0][3]
     sub = {J0: T.sym("J"), X0: T.sym("X")}
     pres = set(T.walk(("bag", xs, js)))
+    if (J0 not in pres or X0 not in pres) and cycle_ok:
+        rep.ok("R-RECIPE", site, "day of year and year before the carry are not written as Meeus' (ch. 9) expressions; the conversion agrees with the arithmetic Islamic "
+                                 "calendar on every executed date all the same (R-CYCLE)", obligation=True)
+        return
     if J0 not in pres or X0 not in pres:
         rep.violation("R-RECIPE", site, "moslem-precarry", "Moslem -> civil: the day-of-year J = Q2 - E + N - 1 and year X = G + K before the year-end carry "
                       "are not Meeus' (ch. 9) expressions", obligation=True)
@@ -681,7 +688,10 @@ def moslem_carry(repo, rep):
                 break
         if bad:
             break
-    if bad:
+    if bad and cycle_ok:
+        rep.ok("R-RECIPE", site, "year-end carry not in the published form (%s); the conversion agrees with the arithmetic Islamic calendar on every executed date all the "
+                                 "same (R-CYCLE)" % bad[:120], obligation=True)
+    elif bad:
         rep.violation("R-RECIPE", site, "moslem-carry", "Moslem -> civil: " + bad, obligation=True)
     else:
         rep.ok("R-RECIPE", site, "J, X equal Meeus ch. 9; year-end carry is that of a Julian year on all %d cases of (J vs 365/366, X mod 4)" % n, obligation=True)
